@@ -27,7 +27,7 @@ def _staged(*stages):
                 level = replay['input'].get('level')
                 if name == 'values' and replay['input'].get('spec') is None and level != 'store':
                     continue
-                if name == 'sched' and 'case' not in keys and level not in ('falsy', 'nested-names', 'die-in-run'):
+                if name == 'sched' and 'case' not in keys and level not in ('falsy', 'nested-names', 'die-in-run', 'lingering-worker'):
                     continue
                 if name == 'histories' and 'history' not in keys and level not in ('unreadable-entry', 'zero-duration', 'nested-names', 'second-interpreter', 'mimic'):
                     continue
@@ -57,6 +57,7 @@ REGISTRY['C17'] = _staged(('sched', props_sched.run), ('histories', props_cache.
 REGISTRY['C03'] = _staged(('sched', props_sched.run), ('histories', props_cache.run_histories))
 REGISTRY['C01'] = _staged(('sched', props_sched.run), ('histories', props_cache.run_histories))
 REGISTRY['C02'] = _staged(('sched', props_sched.run), ('histories', props_cache.run_histories))
+REGISTRY['C10'] = _staged(('sched', props_sched.run), ('histories', props_cache.run_histories))
 
 import props_diagram
 REGISTRY['C20'] = props_diagram.run
